@@ -31,6 +31,7 @@ pub struct Profile {
     pub body_gate: u32,
     pub body_block: u32,
     pub body_nested: u32,
+    pub body_drop: u32,
     pub env_gates: bool,
     pub faults: bool,
     pub prespawn_permille: u32,
@@ -49,6 +50,7 @@ pub const MIX: Profile = Profile {
     body_gate: 300,
     body_block: 80,
     body_nested: 120,
+    body_drop: 0,
     env_gates: true,
     faults: true,
     prespawn_permille: 200,
@@ -66,6 +68,7 @@ pub const LATE_POLL: Profile = Profile {
     body_gate: 250,
     body_block: 0,
     body_nested: 0,
+    body_drop: 0,
     env_gates: true,
     faults: true,
     prespawn_permille: 100,
@@ -83,6 +86,7 @@ pub const DRAIN_STEAL: Profile = Profile {
     body_gate: 150,
     body_block: 0,
     body_nested: 100,
+    body_drop: 0,
     env_gates: true,
     faults: true,
     prespawn_permille: 300,
@@ -100,6 +104,7 @@ pub const BACKGROUND: Profile = Profile {
     body_gate: 250,
     body_block: 50,
     body_nested: 200,
+    body_drop: 0,
     env_gates: true,
     faults: true,
     prespawn_permille: 500,
@@ -117,6 +122,7 @@ pub const MIX_KICK: Profile = Profile {
     body_gate: 200,
     body_block: 30,
     body_nested: 150,
+    body_drop: 0,
     env_gates: true,
     faults: true,
     prespawn_permille: 500,
@@ -134,6 +140,7 @@ pub const SYNC_STATES: Profile = Profile {
     body_gate: 300,
     body_block: 100,
     body_nested: 250,
+    body_drop: 0,
     env_gates: true,
     faults: true,
     prespawn_permille: 300,
@@ -151,6 +158,7 @@ pub const TRY: Profile = Profile {
     body_gate: 200,
     body_block: 0,
     body_nested: 100,
+    body_drop: 0,
     env_gates: true,
     faults: true,
     prespawn_permille: 300,
@@ -168,6 +176,7 @@ pub const HANDLES: Profile = Profile {
     body_gate: 400,
     body_block: 0,
     body_nested: 80,
+    body_drop: 0,
     env_gates: true,
     faults: true,
     prespawn_permille: 200,
@@ -185,6 +194,7 @@ pub const FSYNC: Profile = Profile {
     body_gate: 400,
     body_block: 0,
     body_nested: 200,
+    body_drop: 0,
     env_gates: true,
     faults: true,
     prespawn_permille: 200,
@@ -202,6 +212,7 @@ pub const WAKE: Profile = Profile {
     body_gate: 900,
     body_block: 0,
     body_nested: 0,
+    body_drop: 0,
     env_gates: true,
     faults: true,
     prespawn_permille: 300,
@@ -219,6 +230,7 @@ pub const SUSPEND: Profile = Profile {
     body_gate: 150,
     body_block: 0,
     body_nested: 0,
+    body_drop: 0,
     env_gates: true,
     faults: true,
     prespawn_permille: 200,
@@ -233,7 +245,9 @@ pub struct Gen<'a> {
     next_id: u32,
     pub n_gates: usize,
     pub n_handles: usize,
-    n_objs: usize,
+    pub n_objs: usize,
+    /// operations are generated on objects obj_lo..n_objs only
+    pub obj_lo: usize,
 }
 
 #[derive(Clone, Copy, PartialEq)]
@@ -247,7 +261,7 @@ enum HK {
 
 impl<'a> Gen<'a> {
     pub fn new(rng: &'a mut Rng, n_objs: usize) -> Gen<'a> {
-        Gen { no_abandon: false, rng, next_id: 0, n_gates: 0, n_handles: 0, n_objs }
+        Gen { no_abandon: false, rng, next_id: 0, n_gates: 0, n_handles: 0, n_objs, obj_lo: 0 }
     }
     pub fn id(&mut self) -> u32 {
         let i = self.next_id;
@@ -290,6 +304,10 @@ impl<'a> Gen<'a> {
             };
             let n = self.op(k);
             b.push(Step::Nested(Box::new(n)));
+        }
+        if depth == 0 && o + 1 < self.n_objs && self.rng.permille(p.body_drop) {
+            let o2 = self.rng.range(o as u64 + 1, self.n_objs as u64 - 1) as usize;
+            b.push(Step::DropObj(o2));
         }
         if self.rng.permille(p.body_yield / 3) {
             b.push(Step::Yield(1));
@@ -411,7 +429,7 @@ impl<'a> Gen<'a> {
                 wt[10] *= 3;
             }
             let c = self.rng.weighted(&wt);
-            let o = self.rng.below(self.n_objs as u64) as usize;
+            let o = self.rng.range(self.obj_lo as u64, self.n_objs as u64 - 1) as usize;
             match c {
                 0 => {
                     let body = self.closure_body(p, o, true, 0);
@@ -580,5 +598,7 @@ pub fn gen_general(rng: &mut Rng, p: &Profile) -> Program {
         faults,
         blocking_gates: vec![],
         blocked_objs: vec![],
+        capacity_probe: vec![],
+        mark_on_stream_poll: None,
     }
 }
